@@ -1145,7 +1145,7 @@ def _():
     if len(loops) != 1 or ast.unparse(loops[0].iter) != "range(len(corrs))":
         raise Untranslatable("evaluate_correlations loop")
     body = loops[0].body
-    out = _fp("evaluate_body", " ; ".join(ast.unparse(s) for s in body))
+    out = ""   # (the loop body is translated as a whole by the `evaluate_loop` fragment)
     rc = find_calls(loops[0], "refine_center")
     if len(rc) != 1 or len(rc[0].args) != 3:
         raise Untranslatable("refine_center call")
@@ -1173,6 +1173,12 @@ def _():
     out += f"def elev_in_range (dist r_min : Rat) : Bool := {c}\n"
     out += _fp("unravel_body", " ; ".join(_stmt_texts(find_def(BC, "unravel_index"))))
     return out
+
+
+@fragment("Eval", "evaluate_loop")
+def _():
+    import kernels as K
+    return K.evaluate_loop_def(BC)
 
 
 @fragment("Eval", "shift")
